@@ -615,4 +615,19 @@ Proof.
   - intros H; injection H as <- _; auto.
 Qed.
 
+(* not initialised yet (None, uninitialised buffer/parameter, empty tensor): every add / edit with an
+   admissible size is accepted and only recorded; removal of an existing constraint too *)
+Theorem uninitialised_always_accepted (s : shaped) d z : ignore (sdat s) = true -> (0 <= z)%Z ->
+  reconstrain s d (Some z) = (set_cons s (dict_set (scons s) d (Z.to_nat z)), None).
+Proof.
+  intros Hi Hz. unfold reconstrain. cbn [option_map]. destruct (Z.ltb_spec z 0); [lia|].
+  destruct (lookup (scons s) d); destruct (sdat s) as [| |t]; try reflexivity; rewrite Hi; reflexivity.
+Qed.
+Theorem uninitialised_remove_accepted (s : shaped) d sz : ignore (sdat s) = true -> lookup (scons s) d = Some sz ->
+  reconstrain s d None = (set_cons s (dict_del (scons s) d), None).
+Proof.
+  intros Hi Hl. unfold reconstrain. cbn [option_map]. rewrite Hl.
+  unfold ignore_or_compatible. destruct (sdat s) as [| |t]; try reflexivity. rewrite Hi. reflexivity.
+Qed.
+
 End ShapedProofs.
